@@ -25,7 +25,7 @@ import (
 
 const c11Rule = "rapid draws of struct types weighted towards *map, *[]T, map[string]map, map[string][]T, pointers inside collections and nested structs, with GCPoint fields " +
 	"(a registered custom type whose codec's Read and Write run runtime.GC() and allocate decoys) at drawn field / element / map-value positions, so that collections happen between any two field decodes or encodes; " +
-	"a drawn schedule of extra collections (in the callback, after the read) and an optional background goroutine looping runtime.GC() during encode; evaluated in a worker with GODEBUG=clobberfree=1 and GC percent 1 " +
+	"a drawn schedule of extra collections (in the callback, after the read), the record's bank either retained or dropped unreferenced and an optional background goroutine looping runtime.GC() during encode; evaluated in a worker with GODEBUG=clobberfree=1 and GC percent 1 " +
 	"(memory the collector considers free is overwritten at once); oracle: after the schedule and a batch of same-type allocations every retained record still denotes what was written, no crash; " +
 	"the file produced under the GC schedule decodes with the reference decoder to what was written; " +
 	"non-trivial = the type has a map or slice reached through a pointer or another map and >= 1 collection ran between decode and comparison; distinct by case JSON hash"
@@ -157,7 +157,12 @@ func runC11InWorker(c c11Case) error {
 		cp := reflect.New(typ).Elem()
 		cp.Set(reflect.NewAt(typ, val).Elem())
 		kept = append(kept, cp)
-		banks = append(banks, rb)
+		if c.RetainBanks {
+			// otherwise the bank is dropped (never closed, never referenced
+			// again): the values must then be kept alive by ordinary typed
+			// pointers alone
+			banks = append(banks, rb)
+		}
 		if n < len(c.GCInCallback) && c.GCInCallback[n] {
 			gcChurn()
 		}
@@ -221,6 +226,7 @@ func drawC11(t *rapid.T) c11Case {
 	}
 	c.GCAfter = gen.Uniform(t, "gcAfter", 3)
 	c.BackgroundGC = gen.Uniform(t, "backgroundGC", 4) == 0
+	c.RetainBanks = rapid.Bool().Draw(t, "retainBanks")
 	return c
 }
 
